@@ -35,7 +35,8 @@ MANIFEST = {
              "correspondence is sampled."),
     "technique": "Lean 4 proof (invariants over an event-driven executable model) + generated constants/shape pins + model/implementation correspondence on a virtual-time loop",
 }
-RULE = ("timelines over a generated DmrDevice/IgdDevice profile (0..4 profile services + foreign services): ops "
+RULE = ("timelines over generated DmrDevice/DmsDevice/IgdDevice profiles (0..4 profile services in every documented version "
+        "of every service/device type + foreign services): ops "
         "sub(auto)/wait/unsub with a scripted publisher (reaction ok/new SID/refuse/unreachable/comm error, granted timeout "
         "61..1800 s/infinite/absent, latency 0..300 s per request); unsubscribe injected at every distinct event time of a run "
         "(thorough) ; non-trivial = at least one renewal round ran; distinct = distinct canonical driver text. Tags record the "
